@@ -110,7 +110,7 @@ def _targets(g):
     return [t for t in dict.fromkeys(ts) if t != "END"]
 
 
-def monitor(events, nodes, ctx, tag, graph_name, stats, async_steps):
+def monitor(events, nodes, ctx, tag, graph_name, stats, async_steps, supplied=None):
     from hypergraph.events.types import NodeEndEvent, NodeErrorEvent, NodeStartEvent, RouteDecisionEvent, RunStartEvent
 
     gates = {n["name"]: n for n in nodes if n["k"] in ("ifelse", "route")}
@@ -124,19 +124,41 @@ def monitor(events, nodes, ctx, tag, graph_name, stats, async_steps):
             runs[e.run_id] = []
         if getattr(e, "run_id", None) in runs:
             runs[e.run_id].append(e)
+    by_name = {n["name"]: n for n in nodes}
     for run_id, evs in runs.items():
         latest: dict = {}
         executed: set = set()
         ndec: dict = {}
         step: list = []
         ended = True
+        available = set(supplied or ())
+        produced_now: set = set()
+        started: set = set()
         for e in evs:
             if isinstance(e, NodeStartEvent):
                 if ended:
                     step = []
                     ended = False
+                    available |= produced_now
+                    produced_now = set()
                 step.append(e.node_name)
+                started.add(e.node_name)
                 t = e.node_name
+                if async_steps and supplied is not None and t in ctrl:
+                    # "when a gate and its targets become runnable together the gate decides first": a controlling gate that has all its
+                    # inputs, has not run yet and is itself free to run (no controlling gate of its own, or only default-open ones that
+                    # have not decided) keeps its targets waiting - also while its own parent gate holds it back for this step
+                    for gname in ctrl[t]:
+                        gs = gates[gname]
+                        if gname in started or not all(w_ in available for w_ in gs.get("wait_for", [])):
+                            continue  # (a gate that waits for a name is pending once that name exists - also while it is postponed for one step
+                            # because the name's producer runs in this very step)
+                        if not all(q in available or q in gs.get("defaults", {}) for q in gs.get("params", [])):
+                            continue
+                        parents = ctrl.get(gname, [])
+                        if all(gates[pg].get("default_open", True) and pg not in executed for pg in parents):
+                            raise Violation("c03.target_started_beside_pending_gate", f"[{tag}] {t} started in superstep {step} while its gate {gname} had all its inputs, had not decided yet and was free to run"
+                                            f"{' (held back only by its own parent gate ' + str(parents) + ')' if parents else ''}: the gate decides first", chained=bool(parents))
                 if t in ctrl:
                     ok = False
                     blockers = []
@@ -177,6 +199,8 @@ def monitor(events, nodes, ctx, tag, graph_name, stats, async_steps):
                 ended = True
                 if e.node_name in gates:
                     executed.add(e.node_name)
+                if isinstance(e, NodeEndEvent) and e.node_name in by_name:
+                    produced_now |= set(by_name[e.node_name].get("outs", [])) | set(by_name[e.node_name].get("emit", []))
     return runs
 
 
@@ -274,7 +298,7 @@ def check_case(case, ev):
             labels.add("rejected:" + type(out.error).__name__)
             continue
         tag = f"{runner}{' nested' if case['nest'] else ''}"
-        monitor(events, nodes, ctx, tag, gname, stats, async_steps=(runner == "async"))
+        monitor(events, nodes, ctx, tag, gname, stats, async_steps=(runner == "async"), supplied=set(vals) if not case["nest"] else None)
 
         # through a (renamed) wrapper: a node that never ran contributes no output to the outer result either
         if case["nest"] and out.status == "completed":
